@@ -995,6 +995,18 @@ func (e *sched) execFrom(fr *sFrame, states []*sState, b, pred, stop *ssa.BasicB
 			}
 		}
 		phisDone = false
+		if e.proto != nil && e.proto.stream && isLoopHeader(b) && b != stop {
+			var keep []*sState
+			for _, st := range states {
+				if e.proto.loopArrive(fr, st, b, pred) {
+					keep = append(keep, st)
+				}
+			}
+			states = keep
+			if len(states) == 0 || len(e.errs) > 0 {
+				return nil
+			}
+		}
 		if b == stop {
 			return states
 		}
@@ -1078,6 +1090,7 @@ func (e *sched) execFrom(fr *sFrame, states []*sState, b, pred, stop *ssa.BasicB
 						}
 						break
 					}
+					e.proto.markLoopFork(fr, st, b)
 					c2 := st.clone()
 					e.proto.assumeCond(st, pc, true)
 					e.proto.assumeCond(c2, pc, false)
@@ -1864,6 +1877,21 @@ func (e *sched) protoCall(states []*sState, call *ssa.Call) ([]*sState, bool) {
 	d := e.proto
 	if b, ok := call.Call.Value.(*ssa.Builtin); ok {
 		handledAll := true
+		if d.stream && b.Name() == "copy" {
+			// copy moves min(len(dst), len(src)) elements: when the path does not order the two lengths, both cases are followed
+			var more []*sState
+			for _, st := range states {
+				ds, ok1 := gShape(e.get(st, call.Call.Args[0]))
+				ss, ok2 := gShape(e.get(st, call.Call.Args[1]))
+				if ok1 && ok2 && !proveP(st.pfacts, ds.ln, token.GEQ, ss.ln) && !proveP(st.pfacts, ss.ln, token.GEQ, ds.ln) {
+					c2 := st.clone()
+					st.addFact(pFact{a: ds.ln, op: token.GEQ, b: ss.ln})
+					c2.addFact(pFact{a: ds.ln, op: token.LSS, b: ss.ln})
+					more = append(more, c2)
+				}
+			}
+			states = append(states, more...)
+		}
 		for _, st := range states {
 			var args []sVal
 			for _, a := range call.Call.Args {
@@ -1895,7 +1923,7 @@ func (e *sched) protoCall(states []*sState, call *ssa.Call) ([]*sState, bool) {
 		if d.glue {
 			handled = d.glueCall(st, call, name, args)
 		}
-		if !handled {
+		if !handled && !(d.stream && strings.HasPrefix(name, "sm3.")) {
 			handled, extra = d.call(st, call, name, args)
 		}
 		if !handled {
